@@ -333,8 +333,24 @@ fn check_memcmp(c: &MemcmpCase, feats: &[CpuFeatures]) -> Verdict {
     if want != a.cmp(&b) {
         return Verdict::fail("C09:simd:memcmp-fallback-not-lexicographic", format!("len={}", c.len));
     }
-    let want_eq = base.batch_mem_equal(&[(&a, &b), (&a, &a)]);
+    // pairs of independent buffers, and views of ONE buffer: same start with another length, and
+    // overlapping windows (callers compare a value against slices of itself)
+    let cut = c.diff_at.min(a.len());
+    let views: [(&[u8], &[u8]); 5] = [(&a, &b), (&a, &a), (&a, &a[..cut]), (&a[..cut], &a), (&a[cut / 2..], &a[..a.len() - cut / 2])];
+    let want_eq = base.batch_mem_equal(&views);
+    let want_views: Vec<std::cmp::Ordering> = views.iter().map(|(x, y)| x.cmp(y)).collect();
+    if want_eq != views.iter().map(|(x, y)| x == y).collect::<Vec<bool>>() {
+        return Verdict::fail("C09:simd:batch_mem_equal-fallback-not-equality", format!("len={} diff_at={}: {:?}", c.len, c.diff_at, want_eq));
+    }
     for f in feats {
+        for (i, (x, y)) in views.iter().enumerate() {
+            if f.vectorized_memcmp(x, y) != want_views[i] {
+                return Verdict::fail(
+                    "C09:simd:memcmp-differs-from-fallback",
+                    format!("[{}] view pair #{i} (lengths {} / {}) of one buffer of {} bytes: got {:?} want {:?}", feat_name(f), x.len(), y.len(), a.len(), f.vectorized_memcmp(x, y), want_views[i]),
+                );
+            }
+        }
         let got = f.vectorized_memcmp(&a, &b);
         if got != want {
             return Verdict::fail(
@@ -345,7 +361,7 @@ fn check_memcmp(c: &MemcmpCase, feats: &[CpuFeatures]) -> Verdict {
         if f.simd_memcmp(&a, &b) != want {
             return Verdict::fail("C09:simd:simd_memcmp-differs-from-fallback", format!("[{}] len={}", feat_name(f), c.len));
         }
-        let ge = f.batch_mem_equal(&[(&a, &b), (&a, &a)]);
+        let ge = f.batch_mem_equal(&views);
         if ge != want_eq {
             return Verdict::fail(
                 "C09:simd:batch_mem_equal-differs-from-fallback",
